@@ -156,6 +156,11 @@ def register_edits(case, bu, ctx, rec, functions, order=None):
             fn_by_name[s.name] = f
     for f in functions:
         fn_by_name.setdefault(f.get_name(), f)
+    # whole functions added with register_insert_function
+    bu.new_functions = {}
+    for k, nf in enumerate(case.get("newfuncs", [])):
+        bu.new_functions[nf["name"]] = ctx.register_insert_function(
+            nf["name"], make_patch(isa, nf["p"], 1000 + k, rec))
     seq = list(enumerate(case["edits"]))
     if order is not None:
         seq = [(i, case["edits"][i]) for i in order]
